@@ -7,6 +7,7 @@ mod grp;
 mod reps;
 mod s_codec;
 mod s_group;
+mod s_pair;
 mod s_conv;
 mod s_field;
 
@@ -76,6 +77,8 @@ fn main() {
         "decode" => s_codec::run_decode(&a, &mut out),
         "affine" => s_codec::run_affine(&a, &mut out),
         "sqrt" => s_codec::run_sqrt(&a, &mut out),
+        "gt" => s_pair::run_gt(&a, &mut out),
+        "pairing" => s_pair::run_pairing(&a, &mut out),
         "group" => s_group::run_group(&a, &mut out),
         "encode" => s_group::run_encode(&a, &mut out),
         s => {
